@@ -268,6 +268,23 @@ fn main() {
 
         #[cfg(feature = "nightly")]
         containers(&mut o, i, &m, &nonce, &key32, (&apk, &ask), (&bpk, &bsk), &ssk);
+        // the empty message as well (held read-only it touches the zero-length special cases of the protection calls)
+        #[cfg(feature = "nightly")]
+        if i % 16 == 0 {
+            use dryoc::protected::*;
+            containers(&mut o, 1_000_000 + i, &[], &nonce, &key32, (&apk, &ask), (&bpk, &bsk), &ssk);
+            let base: Vec<u8> = GenericHash::<32, 32>::hash(&Vec::<u8>::new(), Some(&key32.to_vec())).unwrap();
+            let ro = HeapBytes::from_slice_into_readonly_locked(&[]).map_err(|e| e.to_string());
+            match ro {
+                Ok(ro) => {
+                    let h: Vec<u8> = GenericHash::<32, 32>::hash(&ro, Some(&key32.to_vec())).unwrap();
+                    o.same(&format!("gh:empty-message-vec-vs-readonly-locked/{}", i), &base, &h);
+                    let c = ro.clone();
+                    o.same(&format!("clone:empty-readonly-locked/{}", i), c.as_slice(), &[]);
+                }
+                Err(e) => o.same(&format!("gh:empty-message-vec-vs-readonly-locked/{}", i), &base, e.as_bytes()),
+            }
+        }
     }
     // ------------------------------------------------ the crate's public type aliases have libsodium's lengths, and the
     // length-inferring APIs (generic hash) give the same bytes through the stack aliases as through explicit types
